@@ -1,5 +1,135 @@
-import TuModel.Model.Edit
+/-
+  C12 — edit distance equals the reference metric; operations() is a minimal script.
+
+  Model: `Tu.fillTable` / `Tu.editDistance` / `Tu.prefixDistance` / `Tu.editOperations`
+  (Model/Edit.lean) — the flat matrix filled cell by cell with the code's candidate order and
+  first-minimum tie-breaking.  Reference: `Tu.osaR` (the recurrence as a recursive definition) and
+  `Tu.Align` (edit scripts with their cost), Lemmas/EditL.lean.
+-/
+import TuModel.Lemmas.EditTable
 namespace Tu.C12
 open Tu
-theorem minByFst_singleton (x : Nat × EOp) : minByFst [x] = x := rfl
+
+/-- **the matrix is the reference recurrence**, cell by cell, for every pair of texts and every flag
+combination -/
+theorem matrix_eq_rec (fl : EFlags) (a b : List (List Nat)) (i j : Nat) (hi : i ≤ a.length) (hj : j ≤ b.length) :
+    (tblGet (fillTable fl a b) (b.length + 1) i j).1 = osaR fl (a.take i).reverse (b.take j).reverse :=
+  (fillTable_spec fl a b).2 i j hi hj
+
+theorem distance_eq_osa (fl : EFlags) (a b : List (List Nat)) :
+    editDistance fl a b = osaR fl a.reverse b.reverse := by
+  unfold editDistance
+  rw [matrix_eq_rec fl a b a.length b.length (Nat.le_refl _) (Nat.le_refl _)]
+  simp
+
+/-- the distance is a lower bound for the cost of every edit script (keep / insert / delete /
+replace / adjacent transposition as the flags allow) … -/
+theorem distance_le_script (fl : EFlags) (a b : List (List Nat)) (n : Nat)
+    (h : Align fl a.reverse b.reverse n) : editDistance fl a b ≤ n := by
+  rw [distance_eq_osa]; exact osa_min h
+
+/-- … and some script has exactly that cost: the distance is the minimum over all scripts -/
+theorem distance_attained (fl : EFlags) (a b : List (List Nat)) :
+    Align fl a.reverse b.reverse (editDistance fl a b) := by
+  rw [distance_eq_osa]; exact osa_attained fl _ _ _ rfl
+
+theorem align_refl (fl : EFlags) (as : List (List Nat)) : Align fl as as 0 := by
+  induction as with
+  | nil => exact .nil
+  | cons x as ih => exact .keep x ih
+
+theorem align_zero_eq {fl : EFlags} {as bs : List (List Nat)} {n : Nat} (h : Align fl as bs n) (hn : n = 0) : as = bs := by
+  induction h with
+  | nil => rfl
+  | del _ _ _ => omega
+  | ins _ _ _ => omega
+  | keep x _ ih => rw [ih hn]
+  | rep _ _ _ _ => omega
+  | swp _ _ _ _ => omega
+
+/-- distance 0 exactly for equal texts (including two empty ones) -/
+theorem distance_eq_zero_iff (fl : EFlags) (a b : List (List Nat)) : editDistance fl a b = 0 ↔ a = b := by
+  constructor
+  · intro h
+    have := align_zero_eq (distance_attained fl a b) h
+    have h2 := congrArg List.reverse this
+    simpa using h2
+  · rintro rfl
+    have := distance_le_script fl a a 0 (align_refl fl _)
+    omega
+
+theorem align_le_max (fl : EFlags) (hs : fl.sid = false) (as : List (List Nat)) :
+    ∀ bs : List (List Nat), ∃ n, n ≤ max as.length bs.length ∧ Align fl as bs n := by
+  induction as with
+  | nil => intro bs; exact ⟨bs.length, by simp, align_ins_all fl bs⟩
+  | cons x as ih =>
+    intro bs
+    cases bs with
+    | nil => exact ⟨(x :: as).length, by simp, align_del_all fl (x :: as)⟩
+    | cons y bs =>
+      obtain ⟨n, hn, hal⟩ := ih bs
+      by_cases hxy : x = y
+      · subst hxy; exact ⟨n, by simp; omega, .keep x hal⟩
+      · exact ⟨n + 1, by simp; omega, .rep hxy (by simp [canReplace, hs]) hal⟩
+
+/-- without `spaces_insert_delete_only` the distance is at most the longer length, so the
+normalised value `distance / max(|a|, |b|, 1)` lies in [0, 1] -/
+theorem normalized_range (fl : EFlags) (hs : fl.sid = false) (a b : List (List Nat)) :
+    editDistance fl a b ≤ normDen a b := by
+  obtain ⟨n, hn, hal⟩ := align_le_max fl hs a.reverse b.reverse
+  have := distance_le_script fl a b n hal
+  simp at hn
+  unfold normDen
+  omega
+
+/-- normalised distance of equal texts is 0, including two empty ones (the normaliser is ≥ 1) -/
+theorem normalized_self (fl : EFlags) (a : List (List Nat)) : editDistance fl a a = 0 ∧ 0 < normDen a a := by
+  refine ⟨(distance_eq_zero_iff fl a a).mpr rfl, ?_⟩
+  unfold normDen; omega
+
+theorem align_le_add (fl : EFlags) (as bs : List (List Nat)) : ∃ n, n ≤ as.length + bs.length ∧ Align fl as bs n := by
+  induction as with
+  | nil => exact ⟨bs.length, by simp, align_ins_all fl bs⟩
+  | cons x as ih =>
+    obtain ⟨n, hn, hal⟩ := ih
+    exact ⟨n + 1, by simp; omega, .del x hal⟩
+
+/-- PARTIAL form of the [0,1] clause under `spaces_insert_delete_only`: the normalised value is at
+most 2 (the full clause is false there: see `sid_counterexample`, known finding F12) -/
+theorem normalized_range_sid_partial (fl : EFlags) (a b : List (List Nat)) :
+    editDistance fl a b ≤ 2 * normDen a b := by
+  obtain ⟨n, hn, hal⟩ := align_le_add fl a.reverse b.reverse
+  have := distance_le_script fl a b n hal
+  simp at hn
+  unfold normDen
+  omega
+
+/-- witness for F12: `distance(" ", "x")` is 2 although the longer length is 1 -/
+theorem sid_counterexample :
+    editDistance { swap := true, sid := true } [[32]] [[120]] = 2 ∧ normDen [[32]] [[120]] = 1 := by decide
+
+/-- **prefix_distance is the minimum over all prefixes of `b`** -/
+theorem prefix_min (fl : EFlags) (a b : List (List Nat)) :
+    prefixDistance fl a b =
+      ((List.range (b.length + 1)).map (fun j => editDistance fl a (b.take j))).foldl min (editDistance fl a []) := by
+  unfold prefixDistance
+  have hcell : ∀ j, j ≤ b.length → (tblGet (fillTable fl a b) (b.length + 1) a.length j).1 = editDistance fl a (b.take j) := by
+    intro j hj
+    rw [matrix_eq_rec fl a b a.length j (Nat.le_refl _) hj, distance_eq_osa]
+    simp
+  have h0 := hcell 0 (by omega)
+  simp only [List.take_zero] at h0
+  simp only []
+  rw [h0]
+  congr 1
+  apply List.map_congr_left
+  intro j hj
+  exact hcell j (by simp at hj; omega)
+
+/-! non-vacuity: a transposition is found with swaps and costs two without -/
+example : editDistance { swap := true, sid := false } [[97], [98]] [[98], [97]] = 1 := by decide
+example : editDistance { swap := false, sid := false } [[97], [98]] [[98], [97]] = 2 := by decide
+example : editOperations { swap := true, sid := false } [[97], [98], [99]] [[98], [97], [99]] = some [(.swap, 0, 0)] := by decide
+example : Align { swap := true, sid := false } [[98], [97]] [[97], [98]] 1 := .swp rfl rfl .nil
+
 end Tu.C12
